@@ -204,6 +204,25 @@ def run(tier, seed, replay=None):
                         cs.append([[-1], 0])
                 ncells += len(cs)
                 recs.append({"kind": "inv", "bank": label, "name": name, "ns": ns, "cells": cs})
+        # from_list: the value taken out of a bank image (list indexed by location, None = not implemented) that ends
+        # before, inside or after the value, or has a hole inside it
+        for (label, name), v in sorted(VALUES.items()):
+            n = len(v.locations)
+            w = n - (1 if getattr(v, "mask_length_adjust", 0) == -1 else 0)
+            start = v.locations[0].address
+            image = [(7 * l + 3) % 251 for l in range(start + n + 4)]
+            raw = image[start:start + n]
+            probes = [["len", ln] for ln in sorted({0, start, start + n - 1, start + n, start + n + 3} | set(range(start, start + n + 1)))] + \
+                     [["none", start + j] for j in range(n)]
+            cs = []
+            for kind, x in probes:
+                lst = list(image[:x]) if kind == "len" else [None if l == x else b for l, b in enumerate(image)]
+                c_ = cell_of(lambda: v.from_list(lst), w)
+                if c_["k"] == "text" and issubclass(v, StringValue):
+                    c_["k"] = "str"
+                cs.append(cells.add(c_))
+            ncells += len(cs)
+            recs.append({"kind": "fromlist", "bank": label, "name": name, "start": start, "raw": raw, "probes": probes, "cells": cs})
         if replay is not None:
             c = replay["case"]
             recs = [r_ for r_ in recs if all(r_.get(k) == v_ for k, v_ in c.items())]
